@@ -315,6 +315,50 @@ def check_tree(case, out):
     for nm in ANN:
         if B.isa(getattr(cola, nm)) != (nm in ann_names(B)):
             out.fail("wrap", "isa", "disagrees", nm)
+    # round 6: a TRUE declaration leaves every action of the operator as it was - right and left products, transpose and
+    # adjoint, for real and complex operands (rules that read the declaration may take short-cuts, the matrix is the same)
+    M = np.asarray(R.M)
+    if not declaration_true(case["ann"], M) or TP.scalar_invalidated_annotations(A) or TP.contaminated_by_scalar(tree, names=tuple(ANN)):
+        return
+    out.label("wrap:true_declaration:" + case["ann"])
+    out.nontrivial = True
+    m_, n_ = M.shape
+    dts = [M.dtype, np.dtype(np.complex128)]
+    Mabs = np.abs(M)
+    for cplx in (False, True):
+        dt = np.complex128 if cplx else np.float64
+        for nm, fn, ref, bnd in (
+                ("matvec", lambda: B @ TP.default_vec(n_, dt), M @ TP.default_vec(n_, dt), Mabs @ np.abs(TP.default_vec(n_, dt))),
+                ("matmat", lambda: B @ TP.default_mat(n_, 2, dt), M @ TP.default_mat(n_, 2, dt), Mabs @ np.abs(TP.default_mat(n_, 2, dt))),
+                ("lvec", lambda: TP.default_vec(m_, dt) @ B, TP.default_vec(m_, dt) @ M, np.abs(TP.default_vec(m_, dt)) @ Mabs),
+                ("lmat", lambda: TP.default_mat(m_, 2, dt, left=True) @ B, TP.default_mat(m_, 2, dt, left=True) @ M, np.abs(TP.default_mat(m_, 2, dt, left=True)) @ Mabs),
+                ("T", lambda: B.T @ TP.default_vec(m_, dt), M.T @ TP.default_vec(m_, dt), Mabs.T @ np.abs(TP.default_vec(m_, dt))),
+                ("H", lambda: B.H @ TP.default_mat(m_, 2, dt), M.conj().T @ TP.default_mat(m_, 2, dt), Mabs.T @ np.abs(TP.default_mat(m_, 2, dt)))):
+            try:
+                y = np.asarray(fn())
+            except Exception as e:
+                if not oracle.is_contract_refusal(e):
+                    out.fail("wrap_action:" + nm, "declared:" + case["ann"] + ":" + type(B).__name__.split("[")[0], oracle.exc_man(e), e)
+                continue
+            bound = np.asarray(bnd, dtype=np.float64)
+            bound = bound + (0 if R.exact else 1) * np.max(bound, initial=0)
+            res = oracle.compare(y, np.asarray(ref), bound, R.exact, dts + [np.dtype(dt)], eps=IR.tree_eps(tree))
+            if res is not None:
+                out.fail("wrap_action:" + nm + (":complex_operand" if cplx else ":real_operand"), "declared:" + case["ann"] + ":" + type(B).__name__.split("[")[0], res[0], res[1])
+                return
+
+
+def declaration_true(name, M):
+    m_, n_ = M.shape
+    Mc = M.astype(np.complex128)
+    sc = max(float(np.abs(Mc).max(initial=0)), 1e-300)
+    if name in ("SelfAdjoint", "PSD"):
+        if m_ != n_ or not np.array_equal(Mc, Mc.conj().T):
+            return False
+        return name == "SelfAdjoint" or (n_ > 0 and float(np.linalg.eigvalsh(Mc).min()) > 1e-8 * sc)
+    if name == "Unitary" and m_ != n_:
+        return False
+    return bool(np.abs(Mc.conj().T @ Mc - np.eye(n_)).max(initial=0) <= 1e-12)
 
 
 def _alg(name, n, **kw):
